@@ -904,7 +904,31 @@ def pool_codes():
         TP.callInThreadWithCallback, TP.stop, TP.adjustPoolsize, TP.start)
 
 
+_LOGGED = {"installed": False}
+
+
+def quiet_logging(ctx):
+    """The pool logs task/onResult failures that nobody consumes (log.err).  Without an observer
+    twisted prints each of them to stderr - which, in a shard, is a pipe nobody drains until the
+    shard ends: a worker thread blocked in that write looks exactly like a hung pool.  Route the
+    log to a counting observer instead (process-local; whitelisted: the planned failures)."""
+    if _LOGGED["installed"]:
+        return
+    _LOGGED["installed"] = True
+    from twisted.logger import globalLogBeginner
+
+    lock = threading.Lock()
+
+    def observer(event):
+        if event.get("log_failure") is not None:
+            with lock:
+                _LOGGED["n"] = _LOGGED.get("n", 0) + 1  # evidence only; read at the end of run()
+
+    globalLogBeginner.beginLoggingTo([observer], redirectStandardIO=False, discardBuffer=True)
+
+
 def run(ctx):
+    quiet_logging(ctx)
     t0 = time.time()
     explore_team(ctx)
     ctx.maxi("explore_wall_s", round(time.time() - t0, 1))
@@ -917,13 +941,15 @@ def run(ctx):
                 if ctx.owns(k):
                     run_scripted_pool(ctx, m, n_start, grow_min)
     codes = pool_codes()
-    for i in ctx.cases(100, 5000):
+    for i in ctx.cases(160, 5000):
         run_pool_case(ctx, i, codes)
         if any("did not return" in r for r in ctx.inconclusive_reasons):
             break  # a wedged pool: do not pile up more threads
+    ctx.count("pool_logged_failures", _LOGGED.get("n", 0))
 
 
 def replay(ctx, w):
+    quiet_logging(ctx)
     x = w["witness"]
     if "ops" in x and "initial_limit" in x:
         from twisted._threads import _pool
